@@ -84,7 +84,8 @@ def sym_obj(eng, spec, name, alpha, kalpha=6):
         return m
     if k == 'dict':
         # key alphabet >= number of keys of both mappings, so that 'no key shared' .. 'all keys shared' are all realisable
-        keys = [fresh_pay(eng, f"{name}k{i}", kl, 'str', kalpha) for i, (kl, _) in enumerate(spec[1])]
+        keys = [leaves.pay_of_text(kl) if builtins.isinstance(kl, str) else fresh_pay(eng, f"{name}k{i}", kl, 'str', kalpha)
+                for i, (kl, _) in enumerate(spec[1])]      # a str key spec is a concrete key
         for x, y in itertools.combinations(keys, 2):
             r = (x == y)
             eng.assume(z3.Not(r.e) if builtins.isinstance(r, SBool) else (not r))
@@ -566,6 +567,25 @@ REAL_ERRORS = (AssertionError, AttributeError, TypeError, ValueError, IndexError
 
 
 # ------------------------------------------------------------------ generic job driver
+def max_keys(spec):
+    k = spec[0]
+    if k == 'dict':
+        return max([len(spec[1])] + [max_keys(v) for _, v in spec[1]])
+    if k in ('list', 'mset'):
+        return max([0] + [max_keys(c) for c in spec[1]])
+    if k == 'plist':
+        return max_keys(spec[1])
+    return 0
+
+
+def auto_kalpha(job):
+    """key alphabet = keys of the largest mapping of A + keys of the largest mapping of B: every pattern of shared and
+    unshared keys between two mappings is then realisable"""
+    if job.get('kalpha'):
+        return job['kalpha']
+    return max(2, max_keys(job['A']) + max_keys(job['B']))
+
+
 def run_tree_job(job, body, site_default='diff', path_wall_s=20, tick_cap=40000, budget=1500, max_fail=3,
                  hang_tags=True, quiet=False, witness_extra=None):
     """Explores one (family, options, shape) job.  ``body(A, B, objA, objB, job) -> [failure dict]`` is the property
@@ -574,13 +594,14 @@ def run_tree_job(job, body, site_default='diff', path_wall_s=20, tick_cap=40000,
     set_quiet(job.get('quiet', quiet))
     MONITOR.install()
     alpha = job.get('alpha', 3)
+    kalpha = auto_kalpha(job)
     samples = []
     counters = dict(exception_paths=0, hang_paths=0, oracle_reached=0)
 
     def fn(eng):
         stubs.LSA_MEMO = {}       # scipy is a function of its input: same symbolic table => same assignment on this path
-        objA = sym_obj(eng, job['A'], 'a', alpha, job.get('kalpha', 6))
-        objB = sym_obj(eng, job['B'], 'b', alpha, job.get('kalpha', 6))
+        objA = sym_obj(eng, job['A'], 'a', alpha, kalpha)
+        objB = sym_obj(eng, job['B'], 'b', alpha, kalpha)
         eng.notes['objs'] = (objA, objB)
         opts = build_options(job.get('dict', 'auto'), job.get('list', 'on'))
         A = to_tree(objA, opts)
@@ -748,6 +769,7 @@ def families(tier, want=None):
         ('LL-2-2', L(L(I(), I(2))), L(L(I(2), I()))),
         ('LL-21-2', L(L(I(), I()), L(I())), L(L(I(), I(2)))),
         ('LLi-1i-i1', L(L(I()), I(2)), L(I(2), L(I()))),
+        ('LiL', L(I(), L(I(), I(2))), L(I(), L(I(2), I()))),      # last cell of the outer list edit is itself a list edit
         ('LD', L(D(I(), I(2)), I()), L(D(I(), I()), I(2))),
         ('LD2', L(D(I()), D(I(2))), L(D(I(2)), D(I()), D(I()))),
         ('DL', D(L(I(), I(2)), I()), D(L(I(), I()), I(2))),
@@ -861,9 +883,9 @@ TREE_FILES = ['graphtage/levenshtein.py', 'graphtage/multiset.py', 'graphtage/se
 
 def tree_bounds_text(tier):
     if tier == 'quick':
-        return ("lists n,m<=3 x 3 list modes; multisets n+m<=5; mappings n,m<=3 x {none, auto (n+m<=4), match (n+m<=4)}; 11 depth-2 "
+        return ("lists n,m<=3 x 3 list modes; multisets n+m<=5; mappings n,m<=3 x {none, auto (n+m<=4), match (n+m<=4)}; 12 depth-2 "
                 "nestings (list/dict of list/dict) x {auto,none} (+match for three) x list on/off; 13 cross-kind pairs (null/bool/str/"
-                "int/list/dict/multiset); plist wrappers; leaf lengths mixed 1/2; value alphabet 3, key alphabet 6 (>= number of keys "
-                "of both mappings: every shared/unshared key pattern is realisable); every leaf value and key symbolic")
+                "int/list/dict/multiset); plist wrappers; leaf lengths mixed 1/2; value alphabet 3, key alphabet = number of keys "
+                "of both mappings (every shared/unshared key pattern is realisable); every leaf value and key symbolic")
     return ("lists n,m<=4 (n+m<=7) x 3 list modes x 4 length patterns; multisets n+m<=6; mappings n,m<=3 x 3 strategies; 16 depth-2/3 "
             "nestings; cross-kind pairs; plist wrappers; alphabet 4")
